@@ -35,6 +35,7 @@ def all_ops():
         for w in VARS + [NULL]:
             ops.append('(ae %d %d)' % (v, w)); ops.append('(re %d %d)' % (v, w))
     for v in VARS: ops.append('(rae %d)' % v)
+    for v in VARS: ops.append('(rel %d)' % v)
     for c in MODELS + COMPS:
         for i in (0, 1, 5):
             for x in COMPS + [NULL]: ops.append('(rc %d %d %d)' % (c, i, x))
@@ -107,6 +108,8 @@ def frame(op, prev, cur):
         allowed = {int(t[1]), int(t[2])}
     elif h == 'rae':
         v = int(t[1]); allowed = {v} | set(x for x in prev.get(v, {}).get('equiv', []) if isinstance(x, int))
+    elif h == 'rel':
+        v = int(t[1]); allowed = {v} | set(x for x in prev if v in prev[x].get('equiv', []))
     elif h in ('rc', 'ru'):
         c, i, x = int(t[1]), int(t[2]), int(t[3]); k = 'comp' if h == 'rc' else 'units'; l = kids(c, k)
         allowed = {c, x} | ({l[i]} if i < len(l) else set())
@@ -137,7 +140,7 @@ def run(chk, replay=None):
     chk.assumptions += [
         'universe: 2 models, 3 components (two identical), 3 variables (two identical), 2 identical units, 2 identical resets; null pointers, out-of-range indices and unknown names are part of the operation alphabet',
         'structural equality used by pointer lookups is a parameter of the theorems; the engine instantiates it with the C10 model evaluated on the heap',
-        'partial: memory safety (null / dangling dereference) is runtime behaviour — the model says "refused, unchanged", a crash of the harness is reported with the history as replay; owner release (dropping the last reference) and the service entry points (annotator, importer, analyser) are not part of this engine',
+        'partial: memory safety (null / dangling dereference) is runtime behaviour — the model says "refused, unchanged", a crash of the harness is reported with the history as replay; owner release is modelled for variables that no component owns (`rel`: the object dies and its entries in other variables\' weak equivalence lists expire; the identifier is reused for a fresh variable); release of other objects and the service entry points (annotator, importer, analyser) are not part of this engine',
         'adding an entity to the container that already holds it is outside the claim (existing tests pin the double listing): the oracle stops at such a step, the correspondence continues']
     chk.cov['trusted_base'] += ['harness/hx_heap.cpp, lean/Cellml/Engine/Heap.lean', 'python history generator and graph oracle (checks/C09.py)']
     if not ok:
@@ -156,6 +159,20 @@ def run(chk, replay=None):
         pairs = 1500 if chk.tier == 'quick' else 20000
         for _ in range(pairs):                                          # random pairs after the populated start
             lines.append('(heap %s %s %s)' % (' '.join(setup), rng.choice(alpha), rng.choice(alpha)))
+        # histories about variables only: equivalences added and removed, variables moved, and the last reference to a
+        # parentless variable dropped (its entries in other variables' weak equivalence lists expire)
+        valpha = [o for o in alpha if o.split()[0] in ('(ae', '(re', '(rae', '(rel', '(av') and ' %d' % NULL not in o] + ['(ri %d var 0)' % c for c in COMPS]
+        for _ in range(1500 if chk.tier == 'quick' else 30000):
+            lines.append('(heap %s)' % ' '.join(rng.choice(valpha) for _ in range(rng.randint(3, 10))))
+        # exhaustively: every order of two or three equivalences among the three variables (one of them owned by a
+        # component or none), followed by every pair (thorough: triple) of release / removeAllEquivalences / removeEquivalence / addEquivalence
+        vp = [(5, 6), (5, 7), (6, 7)]
+        tails = ['(rel %d)' % v for v in VARS] + ['(rae %d)' % v for v in VARS] + ['(re %d %d)' % p for p in vp] + ['(ae %d %d)' % p for p in vp]
+        for own in ([], ['(am 0 2)', '(av 2 5)'], ['(am 0 2)', '(av 2 6)']):
+            for n in (2, 3):
+                for pre in itertools.permutations(vp, n):
+                    for tl in itertools.product(tails, repeat=2 if chk.tier == 'quick' else 3):
+                        lines.append('(heap %s)' % ' '.join(own + ['(ae %d %d)' % p for p in pre] + list(tl)))
         nrand = 1500 if chk.tier == 'quick' else 30000
         for _ in range(nrand):
             k = rng.randint(3, 14)
@@ -200,7 +217,7 @@ def run(chk, replay=None):
             prev = g
         tainted += taint
     chk.cov.update(evaluations=nops, distinct_nontrivial=len(set(lines)),
-                   rule='histories over the 12-object universe: every operation of the alphabet (%d operations incl. null pointers, out-of-range indices, unknown names) on the empty and on a populated graph (exhaustive in the last step), random pairs after the populated start, random histories of 3-14 operations; '
+                   rule='histories over the 12-object universe: every operation of the alphabet (%d operations incl. null pointers, out-of-range indices, unknown names) on the empty and on a populated graph (exhaustive in the last step), random pairs after the populated start, random histories of 3-14 operations, random histories of 3-10 operations about variables only (equivalences, moves, release of parentless variables), every order of 2-3 equivalences among the three variables followed by every pair (thorough: triple) of release / removeAllEquivalences / removeEquivalence / addEquivalence; '
                         'after every operation the whole object graph is dumped and compared; one evaluation = one operation' % len(alpha),
                    samples=[lines[5], impl[5][:200], lines[-1][:200]], traces_validated_against_impl=len(lines) - len(disagree), exhaustive=False,
                    histories=len(lines), alphabet=len(alpha), histories_outside_claim=tainted, crashed_histories=len(crashed))
